@@ -232,6 +232,17 @@ def run(ctx):
         s1 = dict(_copy.deepcopy(s2), dim=1)
         fpth = [["f", {"panels": ["0"], "mass_flow": [rng.choice([60.0, 90.0])] * 2, "inlet": [500.0, 510.0]}]]
         cjobs.append((c07.base_case(0, ctimes, [["0", [s2]]], _copy.deepcopy(fpth)), c07.base_case(1, ctimes, [["0", [s1]]], _copy.deepcopy(fpth))))
+    # ... and a 3D tube whose circumferentially varying flux is rotated by whole cells
+    rjobs = []
+    for _ in range(ctx.budget(1, 4)):
+        ctimes = [0.0, 1.0]
+        s3 = c07.tube_spec(rng, ctimes, 3, mult=1, flux_level=rng.choice([1.0, 2.0]))
+        sh = rng.randint(1, s3["nt"] - 1)
+        s3r = _copy.deepcopy(s3)
+        s3r["flux"] = [pl[sh:] + pl[:sh] for pl in s3["flux"]]          # flux[time][theta][z] rolled by -sh along theta
+        fpth = [["f", {"panels": ["0"], "mass_flow": [60.0] * 2, "inlet": [500.0, 510.0]}]]
+        rjobs.append((c07.base_case(0, ctimes, [["0", [s3]]], _copy.deepcopy(fpth)), c07.base_case(1, ctimes, [["0", [s3r]]], _copy.deepcopy(fpth)), sh))
+    rres = run_impl_parallel("c07_coupled", [c07.to_impl(x) for pr in rjobs for x in pr[:2]], workers=8, timeout=900)
     cres = run_impl_parallel("c07_coupled", [c07.to_impl(x) for pr in cjobs for x in pr], workers=8, timeout=900)
     coupled_findings = []
     for k, (a, b) in enumerate(cjobs):
@@ -251,6 +262,23 @@ def run(ctx):
         if gap > 1e-6 * float(np.max(np.abs(T1))) or fgap > 1e-6 * float(np.max(np.abs(F1))):
             coupled_findings.append((a, b, "coupled solver: the 2D solution with axisymmetric flux differs from the 1D solution "
                                            "(wall temperatures by %.3g, fluid temperatures by %.3g)" % (gap, fgap)))
+    for k, (a, b, sh) in enumerate(rjobs):
+        ra, rb = rres[2 * k], rres[2 * k + 1]
+        ctx.case(("coupled-rotation", k), True)
+        ctx.count("pair:coupled-rotation")
+        if "tubes" not in ra or "tubes" not in rb:
+            coupled_findings.append((a, b, "the coupled solve of a one-tube 3D receiver did not complete: %s / %s"
+                                     % ({x: y for x, y in ra.items() if x != "tubes"}, {x: y for x, y in rb.items() if x != "tubes"})))
+            continue
+        Ta = c07.unhex(ra["tubes"][0]["temperature"], ra["tubes"][0]["tshape"])      # (time, r, theta, z)
+        Tb = c07.unhex(rb["tubes"][0]["temperature"], rb["tubes"][0]["tshape"])
+        Fa = c07.unhex(ra["tubes"][0]["fluid_T"], ra["tubes"][0]["fshape"])
+        Fb = c07.unhex(rb["tubes"][0]["fluid_T"], rb["tubes"][0]["fshape"])
+        gap = float(np.max(np.abs(Tb - np.roll(Ta, -sh, axis=2))))
+        fgap = float(np.max(np.abs(Fa - Fb)))
+        if gap > 1e-6 * float(np.max(np.abs(Ta))) or fgap > 1e-6 * float(np.max(np.abs(Fa))):
+            coupled_findings.append((a, b, "coupled solver: rotating the flux by %d cells does not rotate the wall temperatures (off by %.3g) "
+                                           "or changes the fluid temperatures (by %.3g)" % (sh, gap, fgap)))
     if coupled_findings:
         a, b, msg = coupled_findings[0]
         ctx.violation("%s (%d failing comparisons)" % (msg, len(coupled_findings)),
